@@ -1,0 +1,33 @@
+//go:build verif
+
+package rtmp
+
+// Machine-checked contracts for /verif (govc). Comment-only: compiled only with -tags verif, adds no code.
+
+//@ func multiplyAndDivide
+//@   property C24
+//@   domain d >= 1 && m >= 1
+//@   requires d >= 1 && m >= 1 ==> (d-1)*m <= 9223372036854775807
+//@   domain inI64(tdiv(v*m, d))
+//@   ensures result == tdiv(v*m, d)
+
+//@ func multiplyAndDivide2
+//@   property C24
+//@   domain d >= 1 && m >= 1
+//@   requires d >= 1 && m >= 1 ==> (d-1)*m <= 9223372036854775807
+//@   domain inI64(tdiv(v*m, d))
+//@   ensures result == tdiv(v*m, d)
+
+//@ func timestampToDuration
+//@   property C24
+//@   domain clockRate >= 1
+//@   requires clockRate <= 4294967296
+//@   domain inI64(tdiv(t*1000000000, clockRate))
+//@   ensures result == tdiv(t*1000000000, clockRate)
+
+//@ func durationToTimestamp
+//@   property C24
+//@   domain clockRate >= 1
+//@   requires clockRate <= 4294967296
+//@   domain inI64(tdiv(d*clockRate, 1000000000))
+//@   ensures result == tdiv(d*clockRate, 1000000000)
